@@ -15,18 +15,16 @@ Import ListNotations.
 
 (* ---- (c) table obligation on what anchor.rs says NOW ---- *)
 (* Pairs the tree still gets wrong (known findings; see known_findings.d/relational.json):
-   F19  Take may join a SELECT in front of Distinct / DistinctOn  (SELECT DISTINCT .. LIMIT n: DISTINCT is evaluated first).
-        KTakeSorted = a take that carries a sort (it says WHICH rows survive: the wrong rows are observable);
-        KTake = a take without one (any n rows are a correct answer, and DISTINCT-then-LIMIT returns one of them: the pair
-        is against the clause order, but no result contradicts the documented meaning; pinned by the upstream snapshot
-        test_mssql_distinct_fetch).  The proposed repair fixes/F72c makes the sorted take split: the two KTakeSorted pairs
-        then leave this list.
+   F19  a Take WITHOUT a sort of its own may join a SELECT in front of Distinct / DistinctOn (SELECT DISTINCT .. LIMIT n:
+        DISTINCT is evaluated first).  Pinned by the upstream snapshot test_mssql_distinct_fetch.  When no order is in effect
+        any n rows are a correct answer and DISTINCT-then-LIMIT returns one of them; the pair is observable when the order
+        comes from a let-bound table (the take's own `sort` is empty there).
    and three latent pairs of the same family (a set operation in front of DistinctOn; today the operand of a set
    operation always arrives wrapped, so no program reaches them).
-   Repaired since the first adaptation: Distinct and DistinctOn no longer share a SELECT (fix 3561315: the pairs
-   (KDistinct, NDistinctOn) and (KDistinctOn, NDistinct) left this list; `c01_split_distinct_pairs_closed` pins that). *)
+   Repaired: Distinct and DistinctOn no longer share a SELECT (3561315: `c01_split_distinct_pairs_closed`); a take that
+   carries a sort (kind KTakeSorted) splits in front of Distinct / DistinctOn (d060422: `c01_split_sorted_take_closed`). *)
 Definition known_bad : list (kind * nm) :=
-  [ (KTake, NDistinct); (KTake, NDistinctOn); (KTakeSorted, NDistinct); (KTakeSorted, NDistinctOn);
+  [ (KTake, NDistinct); (KTake, NDistinctOn);
     (KUnion, NDistinctOn); (KExcept, NDistinctOn); (KIntersect, NDistinctOn) ].
 
 (* full statement (FALSE on the unchanged tree):  bad_pairs split_required = []  *)
@@ -39,7 +37,7 @@ Print Assumptions c01_split_table_refines_clause_order_partial.
    them breaks this obligation and forces the list to shrink), with the F19 witness spelled out *)
 Theorem c01_split_table_refuted :
   pairs_subset known_bad (bad_pairs split_required) = true /\
-  split_required KTakeSorted [NDistinct] = false /\ may_precede KTakeSorted NDistinct = false.
+  split_required KTake [NDistinct] = false /\ may_precede KTake NDistinct = false.
 Proof. vm_compute. repeat split; reflexivity. Qed.
 Print Assumptions c01_split_table_refuted.
 
@@ -50,6 +48,14 @@ Theorem c01_split_distinct_pairs_closed :
                     (negb (mem NDistinctOn f) || split_required KDistinct f)) (subsets all_names) = true.
 Proof. vm_compute. reflexivity. Qed.
 Print Assumptions c01_split_distinct_pairs_closed.
+
+(* full strength for the take that carries a sort (false before fix d060422): for every following-set, it never joins a
+   SELECT that holds a Distinct or a DistinctOn -- and the table check lets it precede nothing it may not precede at all *)
+Theorem c01_split_sorted_take_closed :
+  forallb (fun f => (negb (mem NDistinct f || mem NDistinctOn f) || split_required KTakeSorted f) &&
+                    (split_required KTakeSorted f || forallb (may_precede KTakeSorted) f)) (subsets all_names) = true.
+Proof. vm_compute. reflexivity. Qed.
+Print Assumptions c01_split_sorted_take_closed.
 
 (* any decision function that passes the table check cuts clause-ordered segments, at any length *)
 Theorem c01_split_back_clause_ordered :
